@@ -1,47 +1,49 @@
-(* Proofs_Witnesses.v — refutations on the current tree: well-formed model files (converted from
-   corpus/stress/w_* and ns_*, see Witnesses.v) on which a modelled checker panics, prints a broken message,
-   or reports a namesake. Evaluated by vm_compute. *)
-From GC Require Import Base GoAst Model_Checkers Witnesses.
+(* Proofs_Witnesses.v — evaluations on converted real files (Witnesses.v, from the w_ and ns_ packages of corpus/stress):
+   (a) documentation of the fixed crashes: the explicitly named PRE-FIX definitions (Model_Checkers_Prefix.v)
+       panic on well-formed witnesses, the current definitions return Ok on the same files;
+   (b) C20: well-formed namesake witnesses on which spelling-based checkers still report. *)
+From GC Require Import Base GoAst Model_Checkers Model_Checkers_Prefix Witnesses.
 
 Ltac refute_panic w := exists w; split; [vm_compute; reflexivity|eexists; vm_compute; reflexivity].
 
-Lemma appendCombine_refuted : exists f, wf f = true /\ exists s, run_appendCombine f = Panic s.
+Lemma appendCombine_prefix_refuted : exists f, wf f = true /\ exists s, run_appendCombine_prefix f = Prefix.Panic s.
 Proof. refute_panic w_append_zero. Qed.
-Lemma appendAssign_refuted : exists f, wf f = true /\ exists s, run_appendAssign f = Panic s.
+Lemma appendAssign_prefix_refuted : exists f, wf f = true /\ exists s, run_appendAssign_prefix f = Prefix.Panic s.
 Proof. refute_panic w_append_zero. Qed.
-Lemma newDeref_refuted : exists f, wf f = true /\ exists s, run_newDeref f = Panic s.
+Lemma newDeref_prefix_refuted : exists f, wf f = true /\ exists s, run_newDeref_prefix f = Prefix.Panic s.
 Proof. refute_panic w_new_zero. Qed.
-Lemma typeDefFirst_refuted : exists f, wf f = true /\ exists s, run_typeDefFirst f = Panic s.
+Lemma typeDefFirst_prefix_refuted : exists f, wf f = true /\ exists s, run_typeDefFirst_prefix f = Prefix.Panic s.
 Proof. refute_panic w_paren_recv. Qed.
-Lemma sortSlice_refuted : exists f, wf f = true /\ exists s, run_sortSlice f = Panic s.
+Lemma sortSlice_prefix_refuted : exists f, wf f = true /\ exists s, run_sortSlice_prefix f = Prefix.Panic s.
 Proof. refute_panic w_bare_return. Qed.
-Lemma evalOrder_refuted : exists f, wf f = true /\ exists s, run_evalOrder f = Panic s.
+Lemma evalOrder_prefix_refuted : exists f, wf f = true /\ exists s, run_evalOrder_prefix f = Prefix.Panic s.
 Proof. refute_panic w_funcfield. Qed.
-Lemma dupOption_refuted : exists f, wf f = true /\ exists s, run_dupOption f = Panic s.
+Lemma dupOption_prefix_refuted : exists f, wf f = true /\ exists s, run_dupOption_prefix f = Prefix.Panic s.
 Proof. refute_panic w_forward_variadic. Qed.
-Lemma flagName_refuted : exists f, wf f = true /\ exists s, run_flagName f = Panic s.
+Lemma flagName_prefix_refuted : exists f, wf f = true /\ exists s, run_flagName_prefix f = Prefix.Panic s.
 Proof. refute_panic w_flag_forward. Qed.
-Lemma badRegexp_refuted : exists f, wf f = true /\ exists s, run_badRegexp_entry f = Panic s.
+Lemma badRegexp_prefix_refuted : exists f, wf f = true /\ exists s, run_badRegexp_entry_prefix f = Prefix.Panic s.
 Proof. refute_panic w_regexp_zero. Qed.
-Lemma regexpPattern_refuted : exists f, wf f = true /\ exists s, run_regexpPattern_entry f = Panic s.
+Lemma regexpPattern_prefix_refuted : exists f, wf f = true /\ exists s, run_regexpPattern_entry_prefix f = Prefix.Panic s.
 Proof. refute_panic w_regexp_zero. Qed.
-Lemma regexpSimplify_refuted : exists f, wf f = true /\ exists s, run_regexpSimplify_entry f = Panic s.
+Lemma regexpSimplify_prefix_refuted : exists f, wf f = true /\ exists s, run_regexpSimplify_entry_prefix f = Prefix.Panic s.
 Proof. refute_panic w_regexp_zero. Qed.
 
-(* the crashes rooted in a namesake: the witness violates "no identifier spelled like the builtin denotes something else" *)
-Lemma append_crash_witness_is_namesake : forallb (g_no_namesake_bare "append") (all_nodes w_append_zero) = false.
-Proof. vm_compute. reflexivity. Qed.
-Lemma new_crash_witness_is_namesake : forallb (g_no_namesake_bare "new") (all_nodes w_new_zero) = false.
-Proof. vm_compute. reflexivity. Qed.
-Lemma regexp_crash_witness_is_namesake : forallb (g_no_namesake_qual "regexp" "regexp") (all_nodes w_regexp_zero) = false.
-Proof. vm_compute. reflexivity. Qed.
-
-(* C07: message with a nil node argument *)
-Lemma newDeref_render_refuted :
-  exists f, wf f = true /\ exists w, In w (warnings (run_newDeref f)) /\ w_render_ok w = false.
+(* pre-fix ZeroValueOf: a message argument that is a nil node *)
+Lemma newDeref_prefix_render_refuted :
+  exists f, wf f = true /\ exists w, In w (Prefix.warnings (run_newDeref_prefix f)) /\ Prefix.w_render_ok w = false.
 Proof. exists w_new_nolit. split; [vm_compute; reflexivity|]. eexists. split; [vm_compute; left; reflexivity|reflexivity]. Qed.
 
-(* C20: diagnostics about namesakes *)
+(* the same witnesses under the current definitions: no panic, and no suggestion for *new(complex128) *)
+Lemma witnesses_regress :
+  run_appendCombine w_append_zero = Ok [] /\ run_appendAssign w_append_zero = Ok [] /\ run_newDeref w_new_zero = Ok [] /\
+  run_typeDefFirst w_paren_recv = Ok [] /\ run_sortSlice w_bare_return = Ok [] /\ run_evalOrder w_funcfield = Ok [] /\
+  run_dupOption w_forward_variadic = Ok [] /\ run_flagName w_flag_forward = Ok [] /\
+  run_badRegexp_entry w_regexp_zero = Ok [] /\ run_regexpPattern_entry w_regexp_zero = Ok [] /\
+  run_regexpSimplify_entry w_regexp_zero = Ok [] /\ run_newDeref w_new_nolit = Ok [].
+Proof. repeat split; vm_compute; reflexivity. Qed.
+
+(* C20: diagnostics about namesakes (current definitions) *)
 Ltac refute_real w := exists w; split; [vm_compute; reflexivity|]; eexists; split; [vm_compute; left; reflexivity|vm_compute; reflexivity].
 
 Lemma newDeref_real_refuted : exists f, wf f = true /\ exists w, In w (warnings (run_newDeref f)) /\ is_real w = false.
@@ -61,14 +63,14 @@ Proof. refute_real ns_filepath_alias. Qed.
 Lemma flagName_silent_on_namesakes : wf ns_flag_pkgvar = true /\ run_flagName ns_flag_pkgvar = Ok [].
 Proof. split; vm_compute; reflexivity. Qed.
 
-(* hypotheses of the partial theorems are satisfiable: a well-formed file on which every guard holds and warnings are produced *)
-Lemma guards_satisfiable :
-  wf ns_filepath_alias = true /\
-  forallb g_append_args (all_nodes ns_filepath_alias) = true /\
-  forallb g_new_args (all_nodes ns_filepath_alias) = true /\
-  forallb g_variadic_fixed_args (all_nodes ns_filepath_alias) = true /\
-  forallb g_flagvar_two_args (all_nodes ns_filepath_alias) = true /\
-  forallb g_lit_returns_value (all_nodes ns_filepath_alias) = true /\
-  forallb g_return_calls_methods (all_nodes ns_filepath_alias) = true /\
-  forallb g_recv_plain (decls ns_filepath_alias) = true.
-Proof. repeat split; vm_compute; reflexivity. Qed.
+(* the hypothesis of C20_newDeref_real_partial is satisfiable on a file with warnings of other checkers *)
+Lemma no_namesake_satisfiable :
+  wf ns_filepath_alias = true /\ forallb (g_no_namesake_bare "new") (all_nodes ns_filepath_alias) = true.
+Proof. split; vm_compute; reflexivity. Qed.
+
+Lemma truncateCmp_real_refuted :
+  exists f, wf f = true /\ exists w, In w (warnings (run_truncateCmp true f)) /\ is_real w = false.
+Proof. refute_real ns_cast_pkgfunc. Qed.
+Lemma nilValReturn_real_refuted :
+  exists f, wf f = true /\ exists w, In w (warnings (run_nilValReturn f)) /\ is_real w = false.
+Proof. refute_real ns_nil_local. Qed.
